@@ -1,0 +1,69 @@
+//go:build verif
+
+// Verification shim for property C20 (TLS verification and credential disclosure).
+// Add-only, compiled only with -tags verif: thin exported wrappers so that the harness module
+// (/verif/harness/cmd/c20) can reach unexported code without copying it.
+
+package gocql
+
+import (
+	"context"
+	"crypto/tls"
+	"net"
+)
+
+// VerifC20SetupTLSConfig is setupTLSConfig.
+func VerifC20SetupTLSConfig(sslOpts *SslOptions) (*tls.Config, error) {
+	return setupTLSConfig(sslOpts)
+}
+
+// VerifC20TLSConfigForAddr is tlsConfigForAddr.
+func VerifC20TLSConfigForAddr(tlsConfig *tls.Config, addr string) *tls.Config {
+	return tlsConfigForAddr(tlsConfig, addr)
+}
+
+// VerifC20Approve is approve.
+func VerifC20Approve(authenticator string, approvedAuthenticators []string) bool {
+	return approve(authenticator, approvedAuthenticators)
+}
+
+// VerifC20DefaultApproved returns a copy of defaultApprovedAuthenticators.
+func VerifC20DefaultApproved() []string {
+	return append([]string(nil), defaultApprovedAuthenticators...)
+}
+
+// VerifC20HostnameAndPort is HostInfo.HostnameAndPort for a host with the given fields.
+func VerifC20HostnameAndPort(hostname string, ip net.IP, port int) string {
+	h := &HostInfo{hostname: hostname, connectAddress: ip, port: port}
+	return h.HostnameAndPort()
+}
+
+// VerifC20Connect runs the driver's own connection set-up for one host, exactly as a session does:
+// connConfig(cfg) (which calls setupTLSConfig and builds the default host dialer unless cfg.HostDialer
+// is set), then Session.dial -> HostDialer.DialHost (WrapTLS / tlsConfigForAddr) -> Conn.init
+// (OPTIONS, STARTUP, authentication handshake).  The connection is closed again when it was
+// established.  The transport comes from cfg.Dialer / cfg.HostDialer (the harness supplies in-memory
+// pipes).  Returns whether the connection reached the established state, and the error otherwise.
+func VerifC20Connect(ctx context.Context, cfg *ClusterConfig, hostname string, ip net.IP, port int) (bool, error) {
+	s := &Session{cfg: *cfg, logger: cfg.logger()}
+	connCfg, err := connConfig(&s.cfg)
+	if err != nil {
+		return false, err
+	}
+	s.connCfg = connCfg
+	host := &HostInfo{hostname: hostname, connectAddress: ip, port: port}
+	conn, err := s.dial(ctx, host, connCfg, connErrorHandlerFn(func(*Conn, error, bool) {}))
+	if err != nil {
+		return false, err
+	}
+	conn.Close()
+	return true, nil
+}
+
+// VerifC20NewSession is NewSession with the control connection disabled (as the package's own tests do
+// with cluster.disableControlConn), so that session creation consists of the connection pool's own
+// connection attempts only.
+func VerifC20NewSession(cfg ClusterConfig) (*Session, error) {
+	cfg.disableControlConn = true
+	return NewSession(cfg)
+}
